@@ -130,7 +130,7 @@ Qed.
    crashing wherever they like, timer assumption or not, changes lock.json or meta.json, and nobody else ever holds. *)
 Definition by_pc (k : pc) : bool :=
   match k with
-  | AcqCreate | RdMeta | RdLock | LockExists | Live _ | Ping _ | StExists _ | StReread _ | Done => true
+  | AcqCreate | RdMeta | RdLock | LockExists | Live _ | Ping _ | LiveM _ | LockExistsM _ | StExists _ | StReread _ | Done => true
   | _ => false
   end.
 Record blocal (b : pid) (q : proc) : Prop := mkB {
